@@ -57,3 +57,11 @@ Definition sort_lines (dedupe : bool) (text : string) : string := sort_lines_wit
 
 Definition is_set_enum (f : list string -> list string) : Prop :=
   forall l, NoDup (f l) /\ (forall x, In x (f l) <-> In x l).
+
+(* ---- selective generation: pruning a declaration-ordered dict by an allow-list that is a SET ----
+   api.py Proto.prune_messages_for_selective_generation:
+     {k: v for k, v in self.all_messages.items() if v.ident in address_allowlist}
+   walks the dict (declaration order) and asks the set only for membership.  [allow] is any enumeration of the set. *)
+Definition prune_decl (decl allow : list string) : list string := filter (fun k => mem_str k allow) decl.
+(* the other way round, {k: decl[k] for k in allow if k in decl}, walks the set *)
+Definition prune_by_set (decl allow : list string) : list string := filter (fun k => mem_str k decl) allow.
